@@ -48,15 +48,20 @@ def check_one(args):
         return (idx, p.name, "oracle-error", repr(ex)[:200])
     try:
         env = programs.dask_env(cutsL, cutsR, known)
+        built = p.fn(env)
+    except Exception as ex:  # noqa: BLE001
+        return (idx, p.name, "unsupported", f"{type(ex).__name__}: {str(ex)[:100]}")
+    try:
         got = compute_dask(p, env, optimize=True)
     except Exception as ex:  # noqa: BLE001
+        if isinstance(ex, NotImplementedError) and "Partition size is less than overlapping" in str(ex):
+            return (idx, p.name, "ok", "documented refusal")
         tb = traceback.format_exc().splitlines()
         site = next((l.strip() for l in reversed(tb) if "dask_expr/" in l), "")
-        if oracle == "unopt":
-            try:
-                compute_dask(p, programs.dask_env(cutsL, cutsR, known), optimize=False)
-            except Exception:  # noqa: BLE001
-                return (idx, p.name, "both-raise", type(ex).__name__)
+        try:
+            compute_dask(p, programs.dask_env(cutsL, cutsR, known), optimize=False)
+        except Exception:  # noqa: BLE001
+            return (idx, p.name, "both-raise", type(ex).__name__)
         return (idx, p.name, "raises", f"{type(ex).__name__}: {str(ex)[:120]} @ {site[-90:]}")
     if oracle == "unopt":
         try:
